@@ -248,7 +248,7 @@ class LCDDocFilter(DocumentFilter):
         doc.remove_region(region.get_id())
 
     # apply background color
-    if self.config.bg_color is not None:
+    if doc.get_body() is not None and self.config.bg_color is not None:
       _apply_bg_color(doc.get_body(), self.config.bg_color)
 
     # apply text color
